@@ -7,6 +7,7 @@ import (
 	"encoding/json"
 	"fmt"
 	"github.com/cosmos/cosmos-sdk/x/group"
+	"sort"
 	"strings"
 
 	abci "github.com/cometbft/cometbft/abci/types"
@@ -196,13 +197,18 @@ func (r *Runner) decodeAny(any *types.Any) J {
 // track remembers accepted records so that later projections re-query them.
 func (r *Runner) track(msgs []M, outs []interface{}) {
 	// flatten Exec wrappers in order; Exec responses carry nested results only as bytes, so derive from msgs
-	var walk func(ms []M)
-	walk = func(ms []M) {
-		for _, m := range ms {
+	// (the messages of a group proposal are taken only when the proposal reports that they ran)
+	var walk func(ms []M, top bool)
+	walk = func(ms []M, top bool) {
+		for i, m := range ms {
 			switch mStr(m, "t") {
 			case "WRec":
-				id := mU64(m, "id")
-				r.Tr.WrkEver[id] = appendUniq(r.Tr.WrkEver[id], mU64(m, "h"))
+				// only a record that is really in state counts (a nested message may have been refused or rolled back)
+				id, h := mU64(m, "id"), mU64(m, "h")
+				if r.W.App.WrkchainKeeper.IsWrkChainBlockRecorded(r.W.Ctx(), id, h) {
+					r.Tr.WrkEver[id] = appendUniq(r.Tr.WrkEver[id], h)
+					sort.Slice(r.Tr.WrkEver[id], func(a, b int) bool { return r.Tr.WrkEver[id][a] < r.Tr.WrkEver[id][b] })
+				}
 			case "BRec":
 				// beacon timestamp ids are assigned by the chain: after a successful record re-query up to last
 				id := mU64(m, "id")
@@ -211,12 +217,24 @@ func (r *Runner) track(msgs []M, outs []interface{}) {
 						r.Tr.BcnEver[id] = appendUniq(r.Tr.BcnEver[id], t)
 					}
 				}
-			case "Exec", "GExec":
-				walk(mList(m, "msgs"))
+			case "Exec":
+				walk(mList(m, "msgs"), false)
+			case "GExec":
+				ran := true
+				if top && i < len(outs) {
+					if o, ok := outs[i].(J); ok {
+						if e, ok := o["executed"].(bool); ok {
+							ran = e
+						}
+					}
+				}
+				if ran {
+					walk(mList(m, "msgs"), false)
+				}
 			}
 		}
 	}
-	walk(msgs)
+	walk(msgs, true)
 }
 
 func appendUniq(xs []uint64, v uint64) []uint64 {
@@ -310,7 +328,8 @@ func (r *Runner) execOn(w *World, ev M, primary bool) (J, error) {
 			if primary {
 				r.txIdx++
 				if rr.Code == 0 {
-					r.track(t.Msgs, nil)
+					outs, _ := res["outs"].([]interface{})
+					r.track(t.Msgs, outs)
 				}
 			}
 		} else {
